@@ -266,6 +266,89 @@ Theorem parallel2d_slice_repaired : forall (pos : R * R) (ax : option (R * R)) (
 Proof. exact par2d_getitem_fixed_l. Qed.
 Print Assumptions parallel2d_slice_repaired.
 
+(* ============ 7. detector surface parametrisations and their derivatives ============ *)
+(* CircularDetector: surface(0) = 0; the surface is the circle of radius r about [circ_transl];
+   the derivative is tangent to it, has length r (= surface_measure) and equals r * axis at 0 *)
+Theorem circular_detector_surface : forall (ax : R * R) (r u : R) (cs : R * R),
+  dot2 ax ax = 1 -> on_circle cs ->
+  let d := Circ ax r in let p := (u, cs) in
+  let c := circ_transl ax r in
+  surf2 d (u, (1, 0)) = (0, 0) /\
+  dot2 (sub2 (surf2 d p) c) (sub2 (surf2 d p) c) = r * r /\
+  dot2 (deriv2 d p) (sub2 (surf2 d p) c) = 0 /\
+  dot2 (deriv2 d p) (deriv2 d p) = r * r /\
+  deriv2 d (u, (1, 0)) = scal2 r ax.
+Proof. exact circ_detector_spec. Qed.
+Print Assumptions circular_detector_surface.
+
+(* CylindricalDetector (rotation matrix m orthogonal, as the constructor establishes): surface(0,0) = 0;
+   height v along m e_z; distance r from the cylinder axis; the two derivatives are orthogonal,
+   of lengths r and 1, the angular one tangent to the cylinder *)
+Theorem cylindrical_detector_surface : forall (a0 a1 : R * R * R) (r : R) m (u v : R) (cu cv : R * R),
+  mm3 (tr3 m) m = id3 -> on_circle cu ->
+  let d := Cyl a0 a1 r m in let p := (u, v, cu, cv) in
+  let c := curved_transl r m in
+  let w := sub3 (surf3 d p) c in
+  let zax := mv3 m (0, 0, 1) in
+  surf3 d (u, 0, (1, 0), cv) = (0, 0, 0) /\
+  dot3 w zax = v /\
+  dot3 w w = r * r + v * v /\
+  dot3 (fst (deriv3 d p)) w = 0 /\
+  dot3 (fst (deriv3 d p)) (snd (deriv3 d p)) = 0 /\
+  dot3 (snd (deriv3 d p)) (snd (deriv3 d p)) = 1 /\
+  dot3 (fst (deriv3 d p)) (fst (deriv3 d p)) = r * r.
+Proof. exact cyl_detector_spec. Qed.
+Print Assumptions cylindrical_detector_surface.
+
+(* SphericalDetector: surface(0,0) = 0; sphere of radius r about [curved_transl]; both derivatives
+   tangent, mutually orthogonal, of lengths r cos(v) and r *)
+Theorem spherical_detector_surface : forall (a0 a1 : R * R * R) (r : R) m (u v : R) (cu cv : R * R),
+  mm3 (tr3 m) m = id3 -> on_circle cu -> on_circle cv ->
+  let d := Sph a0 a1 r m in let p := (u, v, cu, cv) in
+  let c := curved_transl r m in
+  let w := sub3 (surf3 d p) c in
+  surf3 d (u, v, (1, 0), (1, 0)) = (0, 0, 0) /\
+  dot3 w w = r * r /\
+  dot3 (fst (deriv3 d p)) w = 0 /\ dot3 (snd (deriv3 d p)) w = 0 /\
+  dot3 (fst (deriv3 d p)) (snd (deriv3 d p)) = 0 /\
+  dot3 (snd (deriv3 d p)) (snd (deriv3 d p)) = r * r /\
+  dot3 (fst (deriv3 d p)) (fst (deriv3 d p)) = r * r * (fst cv * fst cv).
+Proof. exact sph_detector_spec. Qed.
+Print Assumptions spherical_detector_surface.
+
+(* ====== 8. rotation_matrix_from_to / transform_system always produce rotation matrices ====== *)
+(* (all branches: parallel / antiparallel / perpendicular / generic, 2-d and 3-d; the allclose window
+   of transform_system gives the identity) -- so the default detector axes and positions of every
+   geometry are a rotated copy of the class defaults *)
+Theorem from_to_is_rotation :
+  (forall fv tv m, from_to2 sqrt fv tv = Some m -> mm2 (tr2 m) m = id2 /\ det2 m = 1) /\
+  (forall fv tv m, from_to3 sqrt fv tv = Some m -> mm3 (tr3 m) m = id3 /\ det3 m = 1) /\
+  (forall pv pd m, tsys2 sqrt pv pd = Some m -> mm2 (tr2 m) m = id2 /\ det2 m = 1) /\
+  (forall pv pd m, tsys3 sqrt pv pd = Some m -> mm3 (tr3 m) m = id3 /\ det3 m = 1).
+Proof. exact from_to_is_rotation_l. Qed.
+Print Assumptions from_to_is_rotation.
+
+(* ====== 9. every geometry the constructors return satisfies the hypotheses used above ====== *)
+(* unit rotation axis, unit src_to_det_init, unit and independent detector axes, orthogonal curved-
+   detector matrix, admissible radii -- for ALL constructor arguments that are accepted *)
+Theorem constructed_geometries_wellformed :
+  (forall pos ax tr g, mk_par2d sqrt pos ax tr = Some g ->
+     wf_det2 (p2_det g) /\ exists a, p2_det g = Flat1 a) /\
+  (forall pos axes tr g, mk_par3d sqrt pos axes tr = Some g ->
+     wf_det3' (p3_det g) /\ p3_tr g = tr /\ p3_pos g = add3 pos tr) /\
+  (forall axis pos axes tr g, mk_par3a sqrt axis pos axes tr = Some g ->
+     dot3 (pa_axis g) (pa_axis g) = 1 /\ wf_det3' (pa_det g) /\ pa_tr g = tr) /\
+  (forall rs rd curv s2d axis tr g, mk_fan sqrt rs rd curv s2d axis tr = Some g ->
+     dot2 (f_s2d g) (f_s2d g) = 1 /\ wf_det2 (f_det g) /\ 0 <= f_rs g /\ 0 <= f_rd g /\
+     ~ (f_rs g = 0 /\ f_rd g = 0) /\ f_tr g = tr) /\
+  (forall rs rd curv pitch off axis s2d axes tr g,
+     mk_cone sqrt rs rd curv pitch off axis s2d axes tr = Some g ->
+     dot3 (c_axis g) (c_axis g) = 1 /\ dot3 (c_s2d g) (c_s2d g) = 1 /\ wf_det3' (c_det g) /\
+     0 <= c_rs g /\ 0 <= c_rd g /\ ~ (c_rs g = 0 /\ c_rd g = 0) /\
+     c_tr g = tr /\ c_pitch g = pitch /\ c_off g = off).
+Proof. exact constructed_wf_l. Qed.
+Print Assumptions constructed_geometries_wellformed.
+
 (* =========== non-vacuity: the hypotheses above are met by objects the code builds =========== *)
 From Coq Require Import QArith.
 From Verif Require Import C19.Corr.
